@@ -42,26 +42,72 @@ Proof.
   apply G. intros p Hp. eapply in_combine_fst. exact Hp.
 Qed.
 
-(** F1 is the part of F2 without weights and with one crossing *)
+Lemma frag1_act : fl_act fb = seq 0 (length (fl_design fb)).
+Proof. destruct frag1_parts as (_ & _ & _ & H4 & _). apply nat_list_eqb_eq. exact H4. Qed.
+
+Lemma frag1_isact f : f < length (fl_design fb) -> isact fb f = true.
+Proof. intros Hf. unfold isact. apply memb_In. rewrite frag1_act. apply in_seq. lia. Qed.
+
+Lemma frag1_isact_lt f : isact fb f = true -> f < length (fl_design fb).
+Proof. unfold isact. intros H. apply memb_In in H. rewrite frag1_act in H. apply in_seq in H. lia. Qed.
+
+(** F1 is the part of F2 without weights, with one crossing and without implied factors *)
 Theorem frag1_frag2 : frag2 fb = true.
 Proof.
   destruct frag1_parts as (H1 & H2 & H3 & H4 & H5 & H6 & H7 & H8 & H9 & H10).
-  unfold frag2. rewrite H2, H3, H4, H5, H9. cbn [andb]. rewrite !andb_true_r.
+  assert (HB : forallb (constraint_f2 fb) (fl_constraints fb) = true).
+  { apply forallb_forall. intros k Hk. rewrite forallb_forall in H2. specialize (H2 k Hk).
+    destruct k; cbn [constraint_f1] in H2; cbn [constraint_f2]; try exact H2;
+      repeat match goal with
+             | H : _ && _ = true |- _ => apply andb_prop in H; destruct H
+             end;
+      repeat (apply andb_true_intro; split); try assumption;
+      match goal with H : (?f <? _) = true |- isact fb ?f = true => apply frag1_isact; apply Nat.ltb_lt; exact H end. }
+  assert (HD : act_sorted fb = true).
+  { unfold act_sorted. rewrite frag1_act. rewrite (filter_all (isact fb) _) by (intros f Hf; apply in_seq in Hf; apply frag1_isact; lia).
+    apply nat_list_eqb_refl. }
+  assert (HE : factors_ok fb = true).
+  { unfold factors_ok. apply forallb_forall. intros [f fd] Hin. cbn [fst snd].
+    assert (Hf : f < length (fl_design fb)).
+    { apply in_combine_l in Hin. apply in_seq in Hin. lia. }
+    rewrite (frag1_isact f Hf). unfold all_basic in H5. rewrite forallb_forall in H5. unfold basic_fd.
+    apply H5. eapply in_combine_r. exact Hin. }
+  assert (HL : act_levels_nonempty fb = true).
+  { unfold act_levels_nonempty. rewrite frag1_act. exact H9. }
   unfold single_plain_crossing in H1. unfold size_matches1 in H8. unfold plain_geometry in H7.
   unfold unit_weights in H6. apply andb_prop in H6. destruct H6 as [H6 _].
   pose proof frag1_combo_weight as Hcw.
+  unfold frag2. rewrite HB, H3, HD, HE, HL. rewrite !andb_true_r.
   destruct (fl_crossings fb) as [|c [|? ?]] eqn:Ec; try discriminate.
   destruct (fl_sustains fb) as [|[|[|?]] [|? ?]] eqn:Es; try discriminate.
   destruct (fl_weights fb) as [|[|[|?]] [|? ?]] eqn:Ew; try discriminate.
   destruct (fl_preambles fb) as [|[|?] [|? ?]] eqn:Ep; try discriminate.
   destruct (fl_sizes fb) as [|s0 [|? ?]] eqn:Ez; try discriminate.
-  apply andb_true_intro. split.
-  - unfold plain_crossings. rewrite Ec, Es, Ew, Ep, Ez. cbn [length forallb combine Nat.ltb Nat.leb Nat.eqb andb].
-    unfold crossing_plain. rewrite H1, H7. cbn [andb]. unfold crossing_size_ok. cbn [fst snd].
+  apply andb_prop in H1. destruct H1 as [H1a H1b].
+  assert (HA : plain_crossings fb = true).
+  { unfold plain_crossings. rewrite Ec, Es, Ew, Ep, Ez. cbn [length forallb combine Nat.ltb Nat.leb Nat.eqb andb].
+    unfold crossing_plain. rewrite H1a, H7. cbn [andb].
+    replace (forallb (isact fb) c) with true
+      by (symmetry; apply forallb_forall; intros f Hf; apply frag1_isact; rewrite forallb_forall in H1b; apply Nat.ltb_lt; apply H1b; exact Hf).
+    cbn [andb]. unfold crossing_size_ok. cbn [fst snd].
     rewrite (list_sum_ones (fun ls => combo_weight fb (combine c ls))) by (intros ls _; apply Hcw; reflexivity).
-    rewrite H8. reflexivity.
-  - cbn [length Nat.eqb]. rewrite andb_true_r. exact H10.
+    rewrite H8. reflexivity. }
+  rewrite HA. cbn [andb length Nat.eqb]. rewrite andb_true_r. exact H10.
 Qed.
+
+(** without implied factors nothing is added to the candidate *)
+Lemma frag1_cand_seq r : cand_seq fb r = tseq_of_run fb r.
+Proof.
+  unfold cand_seq, fill_implied. unfold tseq_of_run at 2.
+  apply map_ext_in. intros f Hf. apply in_seq in Hf. rewrite (frag1_isact f ltac:(lia)).
+  unfold tseq_of_run.
+  set (F := fun f0 : nat => match rlookup r f0 with Some row => row | None => [] end).
+  rewrite (nth_indep (map F (seq 0 (length (fl_design fb)))) [] (F 0)) by (rewrite map_length, seq_length; lia).
+  rewrite (map_nth F), seq_nth by lia. reflexivity.
+Qed.
+
+Lemma frag1_cand_fseq k : cand_fseq fb k = cand_tseq fb k.
+Proof. unfold cand_fseq, cand_tseq. destruct (decode_key fb k); [apply frag1_cand_seq | reflexivity]. Qed.
 
 Lemma frag1_weight : the_weight fb = 1.
 Proof.
@@ -103,14 +149,14 @@ Proof. apply (f2_decode_key fb H2 [] [] f1_memos f1_make_enumerator). Qed.
 Theorem f1_accept_sound k cand :
   In k (keys_of fb) -> decode_key fb k = Some cand -> accepts fb cand = true ->
   valid_b S0 (tseq_of_run fb cand) = true.
-Proof. apply (f2_accept_sound fb H2). Qed.
+Proof. rewrite <- frag1_cand_seq. apply (f2_accept_sound fb H2). Qed.
 
 (** C05, injectivity on F1 *)
 Theorem f1_cand_inj k1 k2 c1 c2 :
   In k1 (keys_of fb) -> In k2 (keys_of fb) ->
   decode_key fb k1 = Some c1 -> decode_key fb k2 = Some c2 ->
   tseq_of_run fb c1 = tseq_of_run fb c2 -> k1 = k2.
-Proof. apply (f2_cand_inj fb H2). Qed.
+Proof. rewrite <- !frag1_cand_seq. apply (f2_cand_inj fb H2). Qed.
 
 Theorem f1_keys_nodup : NoDup (keys_of fb).
 Proof. apply (f2_keys_nodup fb H2). Qed.
@@ -128,19 +174,24 @@ Theorem f1_accept_complete s :
   fl_errors_fail fb = false -> valid_b S0 s = true ->
   exists k cand, In k (keys_of fb) /\ decode_key fb k = Some cand /\ accepts fb cand = true /\
                  tseq_of_run fb cand = s.
-Proof. apply (f2_accept_complete fb H2 s f1_enumerates). Qed.
+Proof.
+  intros He Hv. destruct (f2_accept_complete fb H2 s f1_enumerates He Hv) as (k & cand & H).
+  exists k, cand. rewrite <- frag1_cand_seq. exact H.
+Qed.
 
 (** C06 on F1: the valid sequences are exactly the candidates of the accepted
     keys, one key each *)
 Lemma key_accepted_spec k : In k (keys_of fb) ->
   key_accepted fb k = valid_b S0 (cand_tseq fb k).
-Proof. apply (f2_key_accepted_spec fb H2). Qed.
+Proof. rewrite <- frag1_cand_fseq. apply (f2_key_accepted_spec fb H2). Qed.
 
 Theorem f1_accepted_exact :
   fl_errors_fail fb = false ->
   NoDup (map (cand_tseq fb) (accepted_keys fb)) /\
   (forall s, In s (map (cand_tseq fb) (accepted_keys fb)) <-> valid_b S0 s = true).
-Proof. apply (f2_accepted_exact fb H2 f1_enumerates). Qed.
+Proof.
+  rewrite <- (map_ext _ _ frag1_cand_fseq). apply (f2_accepted_exact fb H2 f1_enumerates).
+Qed.
 
 (** without a rejecting constraint every key is accepted *)
 Lemma f1_rejection_free_accepts k : rejection_free fb = true -> In k (keys_of fb) -> key_accepted fb k = true.
@@ -154,7 +205,7 @@ Theorem f1_count_exact :
   Z.of_nat (length (map (cand_tseq fb) (keys_of fb))) = possible_keys fb en.
 Proof.
   intros He Hrf. split; [apply f1_make_enumerator|].
-  apply (f2m_count_exact fb H2 [] [] f1_memos f1_make_enumerator He Hrf).
+  rewrite <- (map_ext _ _ frag1_cand_fseq). apply (f2m_count_exact fb H2 [] [] f1_memos f1_make_enumerator He Hrf).
 Qed.
 
 End F1T.
